@@ -322,6 +322,19 @@ func (s *handler) createError(err error) *JSONRPCError {
 		} else {
 			log.Errorf("Failed to marshal error metadata: %w", marshalErr)
 		}
+	case json.Marshaler:
+		// an error returned in value form whose UnmarshalJSON has a pointer
+		// receiver (the usual pattern) is not `marshalable` itself, but the
+		// client rebuilds the registered type through a pointer and fills it
+		// from the metadata, so send it
+		if reflect.PtrTo(reflect.TypeOf(err)).Implements(marshalableRT) {
+			meta, marshalErr := m.MarshalJSON()
+			if marshalErr == nil {
+				out.Meta = meta
+			} else {
+				log.Errorf("Failed to marshal error metadata: %w", marshalErr)
+			}
+		}
 	}
 
 	return out
